@@ -1,9 +1,11 @@
-package main
+package kit
 
 // Common harness kit: PRNG, report, Coq literal printing, sharded cases files.
 
 import (
+	"bytes"
 	"encoding/json"
+	"flag"
 	"fmt"
 	"math"
 	"os"
@@ -169,16 +171,16 @@ func CList(xs []string) string { return "[" + strings.Join(xs, "; ") + "]" }
 // Cases accumulates Coq terms of one kind and writes them into shards
 // cases_<kind>_<k>.v, each evaluating `mismatches` of the named model module.
 type Cases struct {
-	Kind     string   // file/result name
-	Imports  string   // e.g. "From Sdfx Require Import Algo.Canon."
-	Type     string   // Coq type of a case, e.g. "Canon.case"
-	Fn       string   // function : list case -> list N
+	Kind     string // file/result name
+	Imports  string // e.g. "From Sdfx Require Import Algo.Canon."
+	Type     string // Coq type of a case, e.g. "Canon.case"
+	Fn       string // function : list case -> list N
 	PerShard int
 	items    []string
 }
 
 func (c *Cases) Add(term string) { c.items = append(c.items, term) }
-func (c *Cases) Len() int         { return len(c.items) }
+func (c *Cases) Len() int        { return len(c.items) }
 func (c *Cases) Write(dir string) error {
 	if c.PerShard == 0 {
 		c.PerShard = 500
@@ -205,7 +207,7 @@ func (c *Cases) Write(dir string) error {
 
 // ---------------------------------------------------------------- misc
 
-func sortedKeys(m map[string]int) []string {
+func SortedKeys(m map[string]int) []string {
 	ks := make([]string, 0, len(m))
 	for k := range m {
 		ks = append(ks, k)
@@ -214,7 +216,7 @@ func sortedKeys(m map[string]int) []string {
 	return ks
 }
 
-func tierN(tier string, quick, thorough, search int) int {
+func TierN(tier string, quick, thorough, search int) int {
 	switch tier {
 	case "thorough":
 		return thorough
@@ -222,4 +224,70 @@ func tierN(tier string, quick, thorough, search int) int {
 		return search
 	}
 	return quick
+}
+
+// ---------------------------------------------------------------- entry point
+
+type Ctx struct {
+	Tier, Out, Repo, Verif, Replay, Focus string
+	Seed                                  uint64
+}
+
+// GenFn regenerates one file of coq/Generated from the current source tree.
+type GenFn func(c *Ctx) (name string, content []byte, err error)
+
+func writeIfChanged(path string, b []byte) error {
+	old, err := os.ReadFile(path)
+	if err == nil && bytes.Equal(old, b) {
+		return nil
+	}
+	return os.WriteFile(path, b, 0o644)
+}
+
+// Main is the main() of every per-property binary:
+//
+//	<bin> gen -repo R -out DIR          run the translators (may be none)
+//	<bin> run -tier T -seed S -out DIR  run the implementation, write cases*.v and impl.json
+func Main(id string, check func(*Ctx, *Report) error, gens ...GenFn) {
+	if len(os.Args) < 2 {
+		fmt.Println("usage:", id, "gen|run [flags]")
+		os.Exit(2)
+	}
+	mode := os.Args[1]
+	fs := flag.NewFlagSet(id, flag.ExitOnError)
+	c := &Ctx{}
+	fs.StringVar(&c.Tier, "tier", "quick", "quick|thorough|search")
+	fs.StringVar(&c.Out, "out", ".", "output directory")
+	fs.StringVar(&c.Repo, "repo", "/repo", "sdfx source tree")
+	fs.StringVar(&c.Verif, "verif", "/verif", "verif directory")
+	fs.StringVar(&c.Replay, "replay", "", "replay file")
+	fs.StringVar(&c.Focus, "focus", "", "case ids to focus the search on")
+	fs.Uint64Var(&c.Seed, "seed", 1, "seed")
+	fs.Parse(os.Args[2:])
+	switch mode {
+	case "gen":
+		for _, g := range gens {
+			name, b, err := g(c)
+			if err == nil {
+				err = writeIfChanged(filepath.Join(c.Out, name), b)
+			}
+			if err != nil {
+				fmt.Println("gen:", err)
+				os.Exit(1)
+			}
+		}
+	case "run":
+		r := NewReport(id, c.Tier, c.Seed)
+		if err := check(c, r); err != nil {
+			fmt.Println(id, "harness error:", err)
+			os.Exit(1)
+		}
+		if err := r.Write(c.Out); err != nil {
+			fmt.Println(err)
+			os.Exit(1)
+		}
+	default:
+		fmt.Println("unknown mode", mode)
+		os.Exit(2)
+	}
 }
